@@ -129,9 +129,12 @@ def overlay(variant="plain"):
     """Directory for PYTHONPATH holding ImageD11 -> /repo sources + fresh .so"""
     so = f2py_module(variant)
     hsh = source_hash("f2py:" + variant)
-    top = os.path.join(WORK, "ovl", hsh)
+    # one overlay per (C sources, tree location): a scratch copy with identical C sources but different Python files
+    # must not re-point the symlinks a concurrent run on /repo is importing through
+    tag = hsh if REPO == "/repo" else hsh + "-" + hashlib.sha256(os.path.realpath(REPO).encode()).hexdigest()[:8]
+    top = os.path.join(WORK, "ovl", tag)
     pk = os.path.join(top, "ImageD11")
-    with _Lock(os.path.join(WORK, "locks", hsh + ".ovl.lock")):
+    with _Lock(os.path.join(WORK, "locks", tag + ".ovl.lock")):
         os.makedirs(pk, exist_ok=True)
         want = {}
         for e in os.listdir(os.path.join(REPO, "ImageD11")):
@@ -241,7 +244,9 @@ def child_env(variant="plain", extra=None, threads=None):
     if threads is not None:
         env["OMP_NUM_THREADS"] = str(threads)
     if variant == "asan":
-        env["LD_PRELOAD"] = gcc_file("libasan.so")
+        # libstdc++ must be loaded with libasan or the first C++ exception thrown in any extension module (e.g. matplotlib
+        # ft2font on import) dies in "CHECK failed: real___cxa_throw != 0"
+        env["LD_PRELOAD"] = gcc_file("libasan.so") + " " + gcc_file("libstdc++.so.6")
         env.setdefault("ASAN_OPTIONS", "detect_leaks=0:halt_on_error=1:abort_on_error=0")
         env.setdefault("UBSAN_OPTIONS", "print_stacktrace=1:halt_on_error=1")
     if extra:
